@@ -231,7 +231,12 @@ impl Stream for CodecStream {
                 let bytes = unhex(h);
                 let r = guarded(|| Msg::from_bytes(&bytes));
                 let Ok(Ok(m)) = r else {
-                    out.violation("C10", "bep-not-decoded", format!("BEP example {name} does not decode"));
+                    if name.ends_with("-verbatim") {
+                        // BEP44's put arguments are id, token, v (and k, seq, sig, salt, cas): no `target`
+                        out.violation("C10", "bep44-put-needs-target", format!("the BEP44 put message {name} (arguments exactly as BEP44 lists them, without a `target` key) does not decode"));
+                    } else {
+                        out.violation("C10", "bep-not-decoded", format!("BEP example {name} does not decode"));
+                    }
                     return "err".into();
                 };
                 let rendered = render_msg(&m);
@@ -354,6 +359,81 @@ const BEP_EXAMPLES: &[(&str, &str)] = &[
     ("bep44-put-immutable-query", "d1:ad2:id20:abcdefghij01234567896:target20:mnopqrstuvwxyz1234565:token8:aoeusnth1:v12:Hello World!e1:q3:put1:t2:aa1:y1:qe"),
 ];
 
+/// BEP44's test vectors (public key, signatures of seq 1 / "12:Hello World!" without and with the salt "foobar")
+const BEP44_K: [u8; 32] = hex32("77ff84905a91936367c01360803104f92432fcd904a43511876df5cdf3e7e548");
+const BEP44_SIG: [u8; 64] = hex64("305ac8aeb6c9c151fa120f120ea2cfb923564e11552d06a5d856091e5e853cff1260d3f39e4999684aa92eb73ffd136e6f4f3ecbfda0ce53a1608ecd7ae21f01");
+const BEP44_SIG_SALT: [u8; 64] = hex64("6834284b6b24c3204eb2fea824d82f88883a3d95e8b4a21b8c0ded553d17d17ddf9a8a7104b1258f30bed3787e6cb896fca78c58f8e03b5f18f14951a87d9a08");
+
+const fn hexval(c: u8) -> u8 {
+    match c {
+        b'0'..=b'9' => c - b'0',
+        _ => c - b'a' + 10,
+    }
+}
+const fn hex32(s: &str) -> [u8; 32] {
+    let b = s.as_bytes();
+    let mut o = [0u8; 32];
+    let mut i = 0;
+    while i < 32 {
+        o[i] = hexval(b[2 * i]) * 16 + hexval(b[2 * i + 1]);
+        i += 1;
+    }
+    o
+}
+const fn hex64(s: &str) -> [u8; 64] {
+    let b = s.as_bytes();
+    let mut o = [0u8; 64];
+    let mut i = 0;
+    while i < 64 {
+        o[i] = hexval(b[2 * i]) * 16 + hexval(b[2 * i + 1]);
+        i += 1;
+    }
+    o
+}
+
+fn bep44_target(salted: bool) -> [u8; 20] {
+    let mut m = BEP44_K.to_vec();
+    if salted {
+        m.extend_from_slice(b"foobar");
+    }
+    crate::util::sha1_ref(&m)
+}
+
+/// The BEP44 messages, which the BEP gives as schemas, filled in with the BEP's own test vectors.  The
+/// `-verbatim` puts carry exactly the arguments BEP44 lists; the others add the `target` key this library
+/// puts into (and requires in) every put.
+fn bep44_examples() -> Vec<(&'static str, Vec<u8>)> {
+    let cat = |parts: &[&[u8]]| parts.concat();
+    let put = |cas: bool, salt: bool, target: Option<[u8; 20]>| {
+        let mut a = b"d1:ad".to_vec();
+        if cas {
+            a.extend_from_slice(b"3:casi0e");
+        }
+        a.extend_from_slice(b"2:id20:abcdefghij01234567891:k32:");
+        a.extend_from_slice(&BEP44_K);
+        if salt {
+            a.extend_from_slice(b"4:salt6:foobar");
+        }
+        a.extend_from_slice(b"3:seqi1e3:sig64:");
+        a.extend_from_slice(if salt { &BEP44_SIG_SALT } else { &BEP44_SIG });
+        if let Some(t) = target {
+            a.extend_from_slice(b"6:target20:");
+            a.extend_from_slice(&t);
+        }
+        a.extend_from_slice(b"5:token8:aoeusnth1:v12:Hello World!e1:q3:put1:t2:aa1:y1:qe");
+        a
+    };
+    vec![
+        ("bep44-put-immutable-verbatim", b"d1:ad2:id20:abcdefghij01234567895:token8:aoeusnth1:v12:Hello World!e1:q3:put1:t2:aa1:y1:qe".to_vec()),
+        ("bep44-put-mutable-verbatim", put(true, true, None)),
+        ("bep44-put-mutable-salt-cas", put(true, true, Some(bep44_target(true)))),
+        ("bep44-put-mutable-plain", put(false, false, Some(bep44_target(false)))),
+        ("bep44-get-response-mutable", cat(&[b"d1:rd2:id20:abcdefghij01234567891:k32:", &BEP44_K, b"5:nodes26:mnopqrstuvwxyz123456axje.u3:seqi1e3:sig64:", &BEP44_SIG, b"5:token8:aoeusnth1:v12:Hello World!e1:t2:aa1:y1:re"])),
+        ("bep44-get-query-seq", b"d1:ad2:id20:abcdefghij01234567893:seqi5e6:target20:mnopqrstuvwxyz123456e1:q3:get1:t2:aa1:y1:qe".to_vec()),
+        ("bep44-get-response-seq-only", b"d1:rd2:id20:abcdefghij01234567895:nodes26:mnopqrstuvwxyz123456axje.u3:seqi7e5:token8:aoeusnthe1:t2:aa1:y1:re".to_vec()),
+    ]
+}
+
 fn bep_expected(name: &str) -> String {
     let a = hex(b"abcdefghij0123456789");
     let m = hex(b"mnopqrstuvwxyz123456");
@@ -375,6 +455,12 @@ fn bep_expected(name: &str) -> String {
         "bep44-get-query" => format!("q get {a} {m} none"),
         "bep44-get-response-immutable" => format!("r imm {a} tok={tok} nodes={node} v={}", hex(b"Hello World!")),
         "bep44-put-immutable-query" => format!("q put_imm {a} {tok} {m} {}", hex(b"Hello World!")),
+        "bep44-put-immutable-verbatim" => format!("q put_imm {a} {tok} {} {}", hex(&crate::util::sha1_ref(b"12:Hello World!")), hex(b"Hello World!")),
+        "bep44-put-mutable-verbatim" | "bep44-put-mutable-salt-cas" => format!("q put_mut {a} {tok} {} {} {} 1 {} {} 0", hex(&bep44_target(true)), hex(b"Hello World!"), hex(&BEP44_K), hex(&BEP44_SIG_SALT), hex(b"foobar")),
+        "bep44-put-mutable-plain" => format!("q put_mut {a} {tok} {} {} {} 1 {} none none", hex(&bep44_target(false)), hex(b"Hello World!"), hex(&BEP44_K), hex(&BEP44_SIG)),
+        "bep44-get-response-mutable" => format!("r mut {a} tok={tok} nodes={node} v={} k={} seq=1 sig={}", hex(b"Hello World!"), hex(&BEP44_K), hex(&BEP44_SIG)),
+        "bep44-get-query-seq" => format!("q get {a} {m} 5"),
+        "bep44-get-response-seq-only" => format!("r nmr {a} tok={tok} nodes={node} seq=7"),
         _ => "?".into(),
     }
 }
@@ -587,6 +673,10 @@ pub fn generate(out: &mut Out, seed: u64, thorough: bool) {
     for (name, text) in BEP_EXAMPLES {
         out.run(&mut st, format!("bep {name} {}", hex(text.as_bytes())));
         out.count("gen:bep-example");
+    }
+    for (name, bytes) in bep44_examples() {
+        out.run(&mut st, format!("bep {name} {}", hex(&bytes)));
+        out.count("gen:bep44-example");
     }
     for implied in ["none", "0", "1"] {
         for port in [0u16, 6881, 65535] {
